@@ -367,6 +367,10 @@ class UnitRun:
                 tags, owner_fn, kind, ctext = tags_of.get(cid, (dflt, fn, 'hint', ''))
                 if not tags:
                     tags = dflt
+                if cid not in self.gen.get('explicit_tagged', set()) and kind not in ('requires', 'ensures', 'decreases') and tags:
+                    # an untagged loop clause / ghost hint supports the function's PRIMARY property (first default tag);
+                    # implicit safety obligations (overflow, index, unwrap, panic) carry all default tags
+                    tags = list(tags)[:1]
                 oid = cid
                 explicit = bool(tags_of.get(cid, ([], None, None, None))[0]) and cid in self.gen.get('explicit_tagged', set())
                 internal = kind in ('before-loop', 'loop-head', 'loop-tail', 'after-loop', 'before', 'after', 'at-start', 'at-end') \
